@@ -1,6 +1,7 @@
 import CfrVerif.Proofs.ParamSemantics
 import CfrVerif.Proofs.PresetGameInv
 import CfrVerif.Proofs.ExternalAvg
+import CfrVerif.Proofs.SampledIter
 --! audit CfrVerif/Proofs/ParamSemantics.lean
 /-!
 # C08 — the solvers compute the documented discounted-CFR iterates
@@ -20,8 +21,9 @@ Two layers.
   under the current profile (`regAdd`, player two's in player two's own utility) and
   `s_t(I, a) = Σ_{h∈I} π_i(h)·σ_t(I, a)` the own-reach-weighted strategy (`stratAdd`); the returned
   profile is the normalised `S_T`, in which iteration `k` carries weight `k^γ`.
-  For the sampled methods "the textbook algorithm under fixed random choices" is the model
-  itself (`Model/Vanilla`, `Model/External` with a draw oracle); C10 pins the draw discipline and
+  For the sampled methods the same update holds with the increments the sampled traversal makes
+  (`sampled_iterate_textbook`, `external_pass_textbook`), `external_average_weights` shows that
+  both players of external sampling weigh iteration `t` by `t^γ`; C10 pins the draw discipline and
   C04 proves the sampled increments unbiased.
 -/
 set_option linter.unusedSectionVars false
@@ -81,5 +83,41 @@ theorem external_average_weights (g : Game ℝ) (hg : GameWF g) (p : RegretParam
   ⟨fun x hx a ha => external_avg_weights_two g hg p hp draw t I x hx a ha,
    fun x hx a ha => external_avg_weights_one g hg p hp draw t I x hx a ha,
    (extRun_returns g p draw t).1, (extRun_returns g p draw t).2⟩
+
+/-- **chance-sampled CFR, one iteration**: the same DCFR update, with the increments the sampled
+traversal makes (every draw oracle); C04 proves these increments unbiased -/
+theorem sampled_iterate_textbook (g : Game ℝ) (hg : GameWF g) (p : RegretParams ℝ) (draw : DrawFn ℝ)
+    (it : Nat) (s : SolveSt ℝ) (log : List (DrawRec ℝ)) (hs : StOK g s) (me : Bool) (I : Nat)
+    (x : InfoSt ℝ) (hx : (s.get me)[I]? = some x) :
+    let es := (vrec ⟨g.chance, true, s.strat, draw, it - 1⟩ g.root 1 1 1 { log := log }).2.1
+    ∃ x', ((vanillaIter g true p draw it s log).1.get me)[I]? = some x' ∧
+      x'.cumRegret = discountCumRegret p it
+        (vadd x.cumRegret (incVec es me I Slot.regret x.cumRegret.length)) ∧
+      x'.cumStrat = discountAverageStrat p it
+        (vadd x.cumStrat (incVec es me I Slot.strat x.cumStrat.length)) ∧
+      x'.strat = regretMatch p.noPositive
+        (vadd x.cumRegret (incVec es me I Slot.regret x.cumRegret.length)) :=
+  sampled_iterate_update g hg p draw it s log hs me I x hx
+
+/-- **external sampling, one pass**: the updating player's infosets get the DCFR regret update with
+the sampled increments (their average accumulator is only discounted, with the average index of
+`external_average_weights`); the other player's infosets only receive the sampled strategy mass -/
+theorem external_pass_textbook (g : Game ℝ) (hg : GameWF g) (first : Bool) (p : RegretParams ℝ)
+    (draw : DrawFn ℝ) (it : Nat) (s : SolveSt ℝ) (log : List (DrawRec ℝ)) (hs : StOK g s)
+    (me : Bool) (I : Nat) (x : InfoSt ℝ) (hx : (s.get me)[I]? = some x) :
+    let c : ECtx ℝ := ⟨g.chance, first, s.strat, draw, 2 * (it - 1) + (if first then 0 else 1),
+      if first then it - 1 else it⟩
+    let es := (erec c g.root { log := log }).2.1
+    ∃ x', ((externalPass g first p draw it s log).1.get me)[I]? = some x' ∧
+      (me = first →
+        x'.cumRegret = discountCumRegret p it
+          (vadd x.cumRegret (incVec es me I Slot.regret x.cumRegret.length)) ∧
+        x'.cumStrat = discountAverageStrat p (if first then it - 1 else it) x.cumStrat ∧
+        x'.strat = regretMatch p.noPositive
+          (vadd x.cumRegret (incVec es me I Slot.regret x.cumRegret.length))) ∧
+      (me ≠ first →
+        x'.cumRegret = x.cumRegret ∧ x'.strat = x.strat ∧
+        x'.cumStrat = vadd x.cumStrat (incVec es me I Slot.strat x.cumStrat.length)) :=
+  external_pass_update g hg first p draw it s log hs me I x hx
 
 end Cfr
